@@ -203,6 +203,12 @@ class BinnerOp(FunctionContract):
             v = view(kind, res)
             out.append(("C16:new-bins-are-empty", z3.And(z3.BoolVal(len(v[0]) == k), wf_view(v, [[] for _ in range(k)]))))
             out.append(("C16:fresh-and-inner-lists-distinct", z3.BoolVal(separated(kind, res, res) and separated(kind, res, self._other.value))))
+            if k >= 1:
+                # two-step history: an item added to a freshly created array gives exactly its value as the sum of that bin
+                x = ItemV(z3.Const("x", L.Item))
+                add = it.get_function(f"prtpy/binners.py::{self.cls}.add_item_to_bin")
+                it.call(add, [self._me, res, x, k - 1])
+                out.append(("C16:new-then-add:sum-is-exactly-the-item's-value", wf_view(view(kind, res), [[] for _ in range(k - 1)] + [[x.t]])))
             return out
         a, g = self._a, self._a.ghost
         gt = [[x.t for x in l] for l in g]
